@@ -16,7 +16,7 @@ from worlds.dsp import Gates, T, run_on_vloop, secs
 
 PROPERTY = "C13"
 RULE = ("scenario = (tuple of job times in insertion order, max_concurrent, where each job is scheduled from, raising "
-        "job); per scenario every choice sequence (handler/job suspension pattern 0/1/2 yields or external gate, gate "
+        "job, number of event sources); per scenario every choice sequence (handler/job suspension pattern 0/1/2 yields or external gate, gate "
         "release order) within the deviation bound is executed on the real dispatcher. Distinct = distinct "
         "(scenario, invocation trace); non-trivial = at least one job and one event ran.")
 ASSUMPTIONS = [
@@ -25,6 +25,7 @@ ASSUMPTIONS = [
     "jobs scheduled during the final drain (after the last event was handled) are outside the property (CHANGELOG 1.6.1)",
 ]
 EVENTS = (10, 20, 30)
+EVENTS_B = (10, 25)  # second source (scenarios with two sources): a tie with the first source and a time in between
 TIMES = (5, 10, 15, 25, 30, 35, 40, 45)
 # sub-second times sharing a UTC second, between events and beyond the last one
 SUBSEC = (25.2, 25.8, 35.8, 35.2)
@@ -46,12 +47,14 @@ def scenarios(tier, seed):
             for mode in modes:
                 for maxc in (1, 2):
                     for raising in ((None, 0) if size <= 2 else (None,)):
-                        out.append((jt, maxc, mode, raising))
+                        out.append((jt, maxc, mode, raising, 1))
+                        if size <= 2:
+                            out.append((jt, maxc, mode, raising, 2))
     return out
 
 
 def make_run(sc, states=None):
-    jt, maxc, mode, raising = sc
+    jt, maxc, mode, raising, nsrc = sc
 
     def run_one(ch):
         d = bs.backtesting_dispatcher(max_concurrent=maxc)
@@ -95,6 +98,13 @@ def make_run(sc, states=None):
             return j
 
         d.subscribe(src, h)
+        if nsrc == 2:
+            async def hb(e):
+                trace.append(("ev", secs(e.when), now()))
+                note()
+                await gates.suspend("hb")
+                trace.append(("ev-end", secs(e.when)))
+            d.subscribe(bs.FifoQueueEventSource(events=[bs.Event(T(t)) for t in EVENTS_B]), hb)
         for i, m in enumerate(mode):
             if m == "up":
                 trace.append(("sched", i, None))
@@ -121,7 +131,7 @@ def where(t):
 
 def oracle(sc, trace, out, errs):
     """Returns a list of (clause, detail)."""
-    jt, maxc, mode, raising = sc
+    jt, maxc, mode, raising, nsrc = sc
     bad = []
     if out != "returned":
         bad.append(("run-outcome", out))
@@ -152,7 +162,8 @@ def oracle(sc, trace, out, errs):
                 bad.append(("job-order", f"job@{x[2]} started while job@{jt[early[0]]} was scheduled and pending"))
             pending.discard(x[1])
         elif x[0] == "ev":
-            late = [p for p in pending if jt[p] <= x[1]]
+            # (jobs scheduled while this very timestamp is being handled are exempt: events of one timestamp form one batch)
+            late = [p for p in pending if jt[p] <= x[1] and (sched_at.get(p) is None or sched_at[p] < x[1])]
             if late:
                 bad.append(("event-before-due-job", f"event@{x[1]} handled while job@{jt[late[0]]} pending"))
     for k, x in enumerate(trace):
@@ -166,13 +177,13 @@ def oracle(sc, trace, out, errs):
                     bad.append(("job-before-earlier-event", f"job@{x[2]} ran before event@{y[1]}"))
     # events themselves: each exactly once, in order
     evs = [x[1] for x in trace if x[0] == "ev"]
-    if evs != list(EVENTS):
+    if evs != sorted(EVENTS + (EVENTS_B if nsrc == 2 else ())):
         bad.append(("events", f"events handled {evs}"))
     return bad
 
 
 def signature(sc, clause, detail):
-    jt, maxc, mode, raising = sc
+    jt, maxc, mode, raising, nsrc = sc
     feats = []
     if clause in ("job-not-run",):
         feats.append("beyond-last-event" if any(t > EVENTS[-1] for t in jt) else "within-events")
@@ -207,8 +218,8 @@ def run_scenario(sc, tier):
 
 
 def replay(rep):
-    jt, maxc, mode, raising = rep["scenario"]
-    sc = (tuple(jt), maxc, tuple(mode), raising)
+    jt, maxc, mode, raising, nsrc = (list(rep["scenario"]) + [1])[:5]
+    sc = (tuple(jt), maxc, tuple(mode), raising, nsrc)
     trace, out, errs = make_run(sc)(Chooser(rep["choices"]))
     print("scenario:", sc)
     for x in trace:
